@@ -15,6 +15,8 @@ CONSTANTS
   MaxInst = @MAXINST@
   MaxRec = @MAXREC@
   MaxScr = @MAXSCR@
+  FaultSet <- MCFaultSet
+  MaxFaults = @MAXFAULTS@
 VIEW View
 ACTION_CONSTRAINT EmitEdge
 INVARIANT Inv
